@@ -117,6 +117,10 @@ class ChunkedTransferReader(object):
         while True:
             trailer_data = yield from self._connection.readline()
 
+            if not trailer_data.endswith(b'\n'):
+                # The message ends with an empty line, not with EOF.
+                raise NetworkError('Connection closed.')
+
             trailer_data_list.append(trailer_data)
 
             if not trailer_data.strip():
